@@ -199,5 +199,6 @@ func PKCS1v15() RSA {
 
 func init() {
 	RegisterDecrypter(OAEP())
+	RegisterDecrypter(OAEP_SHA256())
 	RegisterDecrypter(PKCS1v15())
 }
